@@ -20,8 +20,11 @@ import jobs as JOBS
 CBMC_FLAGS = ['--object-bits', '12', '--bounds-check', '--pointer-check', '--div-by-zero-check', '--signed-overflow-check',
               '--undefined-shift-check', '--conversion-check', '--pointer-overflow-check', '--no-standard-checks',
               '--bounds-check', '--pointer-check']
+# no --conversion-check: every obligation it adds was classified as ignored (integer<->integer conversions are modulo 2^N
+# with GCC, never UB; float->integer has the renderer's own exact range assertion) and together with
+# --pointer-overflow-check it made one tiny job run for > 15 min
 CBMC_FLAGS = ['--object-bits', '12', '--bounds-check', '--pointer-check', '--div-by-zero-check', '--signed-overflow-check',
-              '--undefined-shift-check', '--conversion-check', '--pointer-overflow-check']
+              '--undefined-shift-check', '--pointer-overflow-check']
 ARITH_CLASSES = ('overflow', 'division-by-zero', 'undefined-shift', 'conversion')
 MEM_KB = 16 * 1024 * 1024
 
